@@ -539,7 +539,7 @@ DIRECTIVE_VARIABLE_CASES = [
     ("A", "query Q($s: Boolean = false) { a s @include(if: $s) }", [{"s": None}, {}, {"s": True}]),
     ("A", "query Q($s: Boolean = true) { s o { a @include(if: $s) id } }", [{"s": None}, {}, {"s": False}]),
     ("A", "query Q($s: Boolean = true) { s on { a id @skip(if: $s) } }", [{"s": None}, {}, {"s": False}]),
-    ("A", "query Q($s: Boolean = true) { lo { id o { a @skip(if: $s) } } a }", [{"s": None}, {"s": False}]),
+    ("A", "query Q($s: Boolean = true) { lo { id o { a @skip(if: $s) } } a }", [{"s": False}, {"s": None}, {"s": None}]),
     ("A", "query Q($s: Boolean = true) { s ... @include(if: $s) { a } }", [{"s": None}, {}, {"s": False}]),
     ("A", "query Q($s: Boolean = true) { s ...F @skip(if: $s) }\nfragment F on Query { a }", [{"s": None}, {"s": True}]),
     ("A", "query Q($s: Boolean = true) { o { ...G } }\nfragment G on Obj { id a @include(if: $s) }", [{"s": None}, {"s": True}]),
